@@ -1,7 +1,7 @@
 #!/bin/sh
 # developer tool: run every registered quick (or $1=thorough) check, print one summary line each
 TIER=${1:-quick}
-for p in C01 C02 C03 C04 C05 C06 C07 C08 C09 C10 C11 C12 C13 C14 C15 C16 C18 C19 C20; do
+for p in C01 C02 C03 C04 C05 C06 C07 C08 C09 C10 C11 C12 C13 C14 C15 C16 C17 C18 C19 C20; do
   [ -f /verif/checks/$(echo $p | tr 'C' 'c').py ] || continue
   /verif/check $p --tier $TIER > /tmp/runall_$p.txt 2>&1; rc=$?
   echo "$p rc=$rc $(grep -c VIOLATION /tmp/runall_$p.txt) viol | $(tail -1 /tmp/runall_$p.txt | cut -c1-160)"
